@@ -226,8 +226,15 @@ static inline bool gzip_decode(const uint8_t* p, size_t n, size_t expect, std::s
     z_stream z; memset(&z, 0, sizeof z);
     if (inflateInit2(&z, 15 + 16) != Z_OK) return false;       // gzip member (RFC 1952), as the format requires
     z.next_in = (Bytef*)p; z.avail_in = (uInt)n; z.next_out = (Bytef*)&out[0]; z.avail_out = (uInt)out.size();
-    int rc = inflate(&z, Z_FINISH);
-    size_t got = z.total_out; bool all_in = z.avail_in == 0;
+    // a gzip page may consist of several members back to back (RFC 1952 2.2; Compression.md: readers should support that)
+    int rc; size_t got = 0;
+    for (;;) {
+        rc = inflate(&z, Z_FINISH);
+        got = out.size() - z.avail_out;
+        if (rc != Z_STREAM_END || z.avail_in == 0) break;
+        if (inflateReset(&z) != Z_OK) { rc = Z_DATA_ERROR; break; }
+    }
+    bool all_in = z.avail_in == 0;
     inflateEnd(&z);
     if (rc != Z_STREAM_END || got != expect || !all_in) return false;
     out.resize(expect);
@@ -293,8 +300,22 @@ static inline bool decompress(int codec, const uint8_t* p, size_t n, size_t expe
 static inline std::string compress(int codec, const std::string& in, bool exotic, sim::Rng& r) {
     switch (codec) {
         case C_SNAPPY: return snappy_encode(in, exotic, r);
-        case C_GZIP: return gzip_encode(in, 1 + (int)r.below(9));
-        case C_ZSTD: return zstd_encode(in, 1 + (int)r.below(6));
+        case C_GZIP: {
+            if (exotic && in.size() >= 2 && r.below(2)) {      // two or three gzip members
+                size_t a = 1 + r.below((uint32_t)in.size() - 1), b = a + (in.size() - a > 1 && r.below(2) ? 1 + r.below((uint32_t)(in.size() - a) - 1) : in.size() - a);
+                std::string o = gzip_encode(in.substr(0, a), 1 + (int)r.below(9)) + gzip_encode(in.substr(a, b - a), 1 + (int)r.below(9));
+                if (b < in.size()) o += gzip_encode(in.substr(b), 1 + (int)r.below(9));
+                return o;
+            }
+            return gzip_encode(in, 1 + (int)r.below(9));
+        }
+        case C_ZSTD: {
+            if (exotic && in.size() >= 2 && r.below(2)) {      // two zstd frames (a valid zstd stream)
+                size_t a = 1 + r.below((uint32_t)in.size() - 1);
+                return zstd_encode(in.substr(0, a), 1 + (int)r.below(6)) + zstd_encode(in.substr(a), 1 + (int)r.below(6));
+            }
+            return zstd_encode(in, 1 + (int)r.below(6));
+        }
         case C_LZ4_RAW: return lz4_encode(in);
         default: return in;
     }
